@@ -687,14 +687,16 @@ Section XExec.
         end
     end.
 
-  (* Machine::execute_main *)
+  (* Machine::execute_main: the initialiser runs on a global state storage of its own; dsp's is put back afterwards *)
   Definition xexec_main (fuel : nat) (x : xmach) : xoutcome :=
     match rd1 (p_funs p) 0 with
     | None => XFault FnIndexOOB
     | Some f =>
         let m := x_core x in
-        let m := if lenN (m_state m) <? f_ssize f then set_state m (resize0 (m_state m) (f_ssize f)) else m in
-        xrun fuel 0 None 1 0 (set_core x m) fl0
+        match xrun fuel 0 None 1 0 (set_core x (mkMach (m_stack m) (m_globals m) 0 (repeat 0%Z (nn (f_ssize f))))) fl0 with
+        | XRet n x' => XRet n (set_core x' (mkMach (x_stack x') (m_globals (x_core x')) (m_pos m) (m_state m)))
+        | o => o
+        end
     end.
 
   (* VmDspRuntime::set_input then Machine::execute_idx(dsp) *)
